@@ -54,15 +54,16 @@ func runC32(r *Run) {
 	lite.ResetPingCache() // the cache is process-global: start every run from an empty one
 
 	type fetch struct {
-		serial   int
-		backend  string
-		prot     int32
-		start    int
-		end      int // seq when the response was written (0: failed / never)
-		endTime  time.Time
-		failed   bool
+		serial  int
+		backend string
+		prot    int32
+		start   int
+		end     int // seq when the response was written (0: failed / never)
+		endTime time.Time
+		failed  bool
 	}
 	var fetches []*fetch
+	coarse := r.W.Pick(2) == 1 // delays on a 500 ms grid: responses arrive in the very instant of a reload
 	serial := 0
 	behave := map[string]int{b1: []int{0, 0, 1, 2}[r.F.Pick(4)], b2: []int{0, 0, 1, 2}[r.F.Pick(4)]} // 0 ok, 1 slow, 2 fail(close)
 	failAll := r.F.Pick(8) == 0
@@ -105,7 +106,11 @@ func runC32(r *Run) {
 			}
 			if behave[addr] == 1 {
 				r.Fault("backend_status_slow")
-				simrt.Sleep(time.Duration(1+r.F.Pick(3000))*time.Millisecond, "c32.slow")
+				d := time.Duration(1+r.F.Pick(3000)) * time.Millisecond
+				if coarse {
+					d = time.Duration(1+r.F.Pick(6)) * 500 * time.Millisecond // lands on the same instants as reloads
+				}
+				simrt.Sleep(d, "c32.slow")
 			}
 			serial++
 			f.serial = serial
@@ -124,6 +129,9 @@ func runC32(r *Run) {
 	resetDelays := make([]time.Duration, nResets)
 	for i := range resetDelays {
 		resetDelays[i] = time.Duration(r.W.Pick(4000)) * time.Millisecond
+		if coarse {
+			resetDelays[i] = time.Duration(r.W.Pick(8)) * 500 * time.Millisecond
+		}
 	}
 	resetKinds := make([]int, nResets)
 	for i := range resetKinds {
@@ -173,6 +181,9 @@ func runC32(r *Run) {
 	for i := 0; i < nReq; i++ {
 		i := i
 		delay := time.Duration(r.W.Pick(5000)) * time.Millisecond
+		if coarse {
+			delay = time.Duration(r.W.Pick(10)) * 500 * time.Millisecond
+		}
 		if r.W.Pick(4) == 0 {
 			delay += ttl + time.Duration(r.W.Pick(3000))*time.Millisecond // beyond the TTL
 		}
@@ -262,8 +273,10 @@ func runC32(r *Run) {
 			return
 		}
 		for _, x := range resets {
-			if x.ret < q.start && f.end != 0 && f.end < x.inv {
-				r.Fail("stale-status-after-reload", "reload", "request started (seq %d) after a reload had returned (seq %d) but was answered with serial %d fetched before that reload (seq %d): %s", q.start, x.ret, q.serial, f.end, desc())
+			// a fetch that was under way when the reload happened belongs to the old generation,
+			// whenever it completed
+			if x.ret < q.start && f.end != 0 && f.start < x.ret {
+				r.Fail("stale-status-after-reload", "reload", "request started (seq %d) after a reload had returned (seq %d) but was answered with serial %d whose fetch began before that reload returned (fetch seq %d..%d): %s", q.start, x.ret, q.serial, f.start, f.end, desc())
 				return
 			}
 		}
